@@ -219,8 +219,22 @@ def run_shard(ctx):
             feats = set()
             acc.add('shadow_shapes', label)
         kw, desc = catalogs(r, idx)
+        want_int = 'int1'
+        plan_text = text
+        if kind == 'gen' and idx % 7 == 3:
+            # the same statement against an integration whose name is not ASCII (lower() and casefold() disagree on it), spelled
+            # `außen1` in the statement and `Außen1` in the catalog; the reference still runs the int1 text
+            want_int = 'außen1'
+            plan_text = text.replace('int1.', '`außen1`.')
+            kw = copy.deepcopy(kw)
+            kw['integrations'] = [('Außen1' if x == 'int1' else x) if isinstance(x, str) else dict(x, name='Außen1' if x['name'] == 'int1' else x['name'])
+                                  for x in kw['integrations']]
+            if kw.get('default_namespace') == 'int1':
+                kw['default_namespace'] = 'außen1'
+            desc = dict(desc, renamed='außen1')
+            acc.count('non_ascii_integration_name')
         try:
-            tree = parse_sql(text, 'mindsdb')
+            tree = parse_sql(plan_text, 'mindsdb')
         except Exception:
             acc.count('generator_text_rejected')
             continue
@@ -235,7 +249,7 @@ def run_shard(ctx):
         acc.ev()
         acc.add('catalog_forms', desc['form'])
         steps = plan.steps
-        if len(steps) != 1 or type(steps[0]).__name__ != 'FetchDataframeStep' or str(steps[0].integration).lower() != 'int1':
+        if len(steps) != 1 or type(steps[0]).__name__ != 'FetchDataframeStep' or str(steps[0].integration).lower() != want_int:
             acc.fail({'defect': 'not-a-single-fetch', 'shape': label, 'nsteps': min(len(steps), 5)},
                      {'text': text, 'catalog': desc, 'plan': [repr(s)[:160] for s in steps][:6]})
             continue
@@ -288,7 +302,7 @@ def run_shard(ctx):
         # the same statement through the prepared-statement entry point: some integer literals written as `?` and supplied at
         # execute time must give the very plan that the literal text gives (one fetch, same pushed query)
         if not bad and idx % 3 == 0:
-            via = via_prepared(text, kw, r)
+            via = via_prepared(plan_text, kw, r)
             if via is not None:
                 acc.count('prepared_entry_compared')
                 got, ref, qtext, vals = via
